@@ -84,6 +84,17 @@ def _worker(args):
     prop, subname, tier, seed, shard, nshards = args
     from vp import core
 
+    try:
+        # tqdm keeps one class-level multiprocessing lock; once the parent has touched it (regression replays run there)
+        # every forked worker would contend for it on each progress-bar call inside the library
+        import threading
+
+        import tqdm.std as _tq
+
+        _tq.tqdm.set_lock(threading.RLock())
+    except Exception:  # noqa: BLE001
+        pass
+
     mod = importlib.import_module(f"vp.checks.{prop.lower()}")
     sub = {s.name: s for s in mod.SUBS}[subname]
     entries = _known_entries(prop)
